@@ -82,6 +82,39 @@ func genC07(o *hx.Out, tier string) {
 		}
 		run("random-walk", seq)
 	}
+	// forged frames (signed with another key, often dated far ahead) interleaved with genuine ones:
+	// only authenticated frames may move the window
+	other := frame.NewV2Key([]byte("another key, not the link's"))
+	nf := 200
+	if tier == "thorough" {
+		nf = 3000
+	}
+	for i := 0; i < nf; i++ {
+		n := 3 + r.Intn(8)
+		var all []byte
+		cur := uint64(1000000 + r.Intn(3000000))
+		for j := 0; j < n; j++ {
+			if r.Intn(3) == 0 {
+				ts := cur + uint64(r.Intn(1<<30))
+				if r.Intn(2) == 0 {
+					ts = 1<<48 - 1 - uint64(r.Intn(1000))
+				}
+				all = append(all, signedWithTs(other, byte(j), ts)...)
+				continue
+			}
+			switch r.Intn(3) {
+			case 0:
+				cur += uint64(r.Intn(2000000))
+			case 1:
+				if cur > 900000 {
+					cur -= uint64(r.Intn(900000))
+				}
+			}
+			all = append(all, signedWithTs(key, byte(j), cur)...)
+		}
+		cs := one(all)
+		o.Add("forged-interleaved", hx.ReadAll(cs, nil, key, nil), "fread", "-", hx.Hex(key[:]), hx.ChunksText(cs))
+	}
 	// outgoing timestamps: bracketed by the clock and non-decreasing (checked inside runWrites)
 	d := shipped("minimal")
 	drw := defineDialect(o, "minimal", d)
